@@ -91,12 +91,16 @@ CHECKS["C18"] = dict(
          "tables contain none of them, that every string is escaped into exactly one Python literal body (escape_is_one_literal, all "
          "strings), that the lexer only lets digits/points/degree signs into number tokens and letters/underscore into variable tokens "
          "(invariants of the tokenise loop), that the text handed to sympy is made of those characters and a fixed alphabet, and that every "
-         "identifier a token or template builds is a fixed prefix plus [A-Za-z0-9_]* (token_holes_ok, sanitise_ident, template_names_ok). "
+         "identifier a token or template builds is a fixed prefix plus [A-Za-z0-9_]* (token_holes_ok, sanitise_ident, template_names_ok); "
+         "and the TREE-LEVEL theorem names_from_vocabulary: for EVERY parsed program (every structure, modifier, token kind, any nesting) "
+         "every program-derived identifier of the transpiler model's output is sanitised and everything else the program supplies is a "
+         "constant — mutual induction over transpileS / wrapLambda / transpileL / transpileLL; its only hypothesis on the tree is the "
+         "lexer's guarantee on variable tokens (vtokL), checked on the parser model's tree for every generated program. "
          "Tie: AST correspondence; ast.walk oracle on the real output against the regenerated vocabulary, adversarial payloads at every "
          "program-text position (exhaustive to length 2/3) and random code-page / Unicode strings.",
-    note=COMMON_NOTE + "Partial: tree-level closure (names_from_vocabulary for all trees) is carried by the per-token/per-template theorems and the AST stream. "
-         "T3: repr(str)/str(int) produce valid literals.",
-    technique="Lean 4 proof (lexer loop invariants, induction on strings, kernel evaluation over tables); AST correspondence; ast.walk vocabulary oracle",
+    note=COMMON_NOTE + "The step from the emitted text to the tree is the AST correspondence; that the parser only puts lexer tokens into the tree "
+         "(vtokL of the parsed tree) is checked per program, not proved. T3: repr(str)/str(int) produce valid literals.",
+    technique="Lean 4 proof (mutual structural induction over the transpiler model, lexer loop invariants, induction on strings, kernel evaluation over tables); AST correspondence; ast.walk vocabulary oracle",
     ref="§5 C18")
 
 CHECKS["C13"] = dict(
